@@ -123,13 +123,13 @@ fn explore_property(prop: &str, tier: &str, only: Option<&str>) -> i32 {
     let mut exit = 0;
     let mut n_viol = 0;
     let mut known_lines = vec![];
-    let replay_bin = std::env::var("SYMORD_REPLAY_BIN").unwrap_or_else(|_| "/verif/replay/target/release/replay".to_string());
-    let _ = std::fs::create_dir_all("/verif/replays");
+    let replay_bin = std::env::var("SYMORD_REPLAY_BIN").unwrap_or_else(|_| format!("{}/replay/target/release/replay", engine::root()));
+    let _ = std::fs::create_dir_all(format!("{}/replays", engine::root()));
     for r in &reports {
         for v in &r.violations {
             n_viol += 1;
             let key = format!("{}/{}", r.scenario, v.site);
-            let fname = format!("/verif/replays/{}-{}.json", prop, sanitize(&key));
+            let fname = format!("{}/replays/{}-{}.json", engine::root(), prop, sanitize(&key));
             let j = serde_json::json!({
                 "property": prop, "scenario": r.scenario, "site": v.site, "choices": v.choices, "nonce": seed(),
                 "order_literals": v.lits.iter().map(|(i, j)| format!("d{}<d{}", i, j)).collect::<Vec<_>>(),
@@ -161,8 +161,8 @@ fn explore_property(prop: &str, tier: &str, only: Option<&str>) -> i32 {
     {
         let runs: Vec<serde_json::Value> = reports.iter().flat_map(|r| r.sample_choices.iter().map(move |c| serde_json::json!({"scenario": r.scenario, "choices": c, "nonce": seed()}))).collect();
         if !runs.is_empty() {
-            let f = format!("/verif/symord/target/tmp/validate-{}-{}.json", prop, std::process::id());
-            let _ = std::fs::create_dir_all("/verif/symord/target/tmp");
+            let f = format!("{}/symord/target/tmp/validate-{}-{}.json", engine::root(), prop, std::process::id());
+            let _ = std::fs::create_dir_all(format!("{}/symord/target/tmp", engine::root()));
             std::fs::write(&f, serde_json::to_string(&serde_json::json!({"property": prop, "runs": runs})).unwrap()).unwrap();
             if let Ok(o) = std::process::Command::new(&replay_bin).args(["--validate", &f]).output() {
                 let s = String::from_utf8_lossy(&o.stdout).to_string();
@@ -216,8 +216,8 @@ fn explore_property(prop: &str, tier: &str, only: Option<&str>) -> i32 {
         "wall_s": t0.elapsed().as_secs_f64(),
         "violations": n_viol,
     });
-    let _ = std::fs::create_dir_all("/verif/evidence");
-    let mut f = std::fs::File::create(format!("/verif/evidence/{}.json", prop)).unwrap();
+    let _ = std::fs::create_dir_all(format!("{}/evidence", engine::root()));
+    let mut f = std::fs::File::create(format!("{}/evidence/{}.json", engine::root(), prop)).unwrap();
     f.write_all(serde_json::to_string_pretty(&ev).unwrap().as_bytes()).unwrap();
     println!("{} tier={} paths={} queries={} violations={} exit={} wall={:.1}s", prop, tier, paths, queries, n_viol, exit, t0.elapsed().as_secs_f64());
     exit
@@ -229,7 +229,7 @@ fn sanitize(s: &str) -> String { s.chars().map(|c| if c.is_ascii_alphanumeric() 
 /// (property, key, description) of findings with status "known"
 #[cfg(feature = "hook")]
 fn load_known() -> Vec<(String, String, String)> {
-    let Ok(txt) = std::fs::read_to_string("/verif/known_findings.json") else { return vec![] };
+    let Ok(txt) = std::fs::read_to_string(format!("{}/known_findings.json", engine::root())) else { return vec![] };
     let Ok(v) = serde_json::from_str::<serde_json::Value>(&txt) else { symord::rt::inconclusive("known_findings.json is not valid JSON") };
     v["findings"].as_array().map(|a| a.iter().filter(|f| f["status"] == "known").map(|f| (
         f["property"].as_str().unwrap_or("").to_string(), f["key"].as_str().unwrap_or("").to_string(), f["what"].as_str().unwrap_or("").to_string())).collect()).unwrap_or_default()
